@@ -73,7 +73,8 @@ def describe(case, res):
 def classify(s0, ln):
     """('ok'|'may'|'must') for a block whose first record would start at s0 (header offset included)."""
     if ln == 0:
-        return "ok"
+        # an empty block changes nothing; refusing it at an unrepresentable address is acceptable too
+        return "ok" if 0 <= s0 <= 0xFFFFFF else "may"
     if s0 < 0 or s0 > 0xFFFFFF or s0 + ln - M > 0xFFFFFF:
         return "must"
     k = 0
